@@ -20,7 +20,44 @@ weaker closed form
 Integer variables contribute nothing to the first term: they are exact.  A row with integer coefficients over integer
 variables only has tol = 0.
 Strict rows are judged as non-strict ones (the code lowers `<` to `<= K - step`); `!=` rows are judged exactly.
-Bounds: a float value must lie in [lo - step, hi + step]; an int value must be a member of its declared range."""
+Bounds: a float value must lie in [lo - step, hi + step]; an int value must be a member of its declared range.
+
+ARITHMETIC AND ELEMENT ROUTES (posts `arith ...`, `elem ...`, non-linear `new ...`).  The result handle returned by
+m.add / sub / mul / div / abs / min / max / sum is printed as one more variable; the judge demands  z = f(operands)
+within a tolerance derived from the same setters.  Notation (all exact rationals, at the reported point):
+   W      = 3/2*step   a fixed float interval has round(width/step) <= 1 (float_interval.rs:161-182), the reported value is
+                       its minimum, so the other end is less than W away;   w(v) = W for a float variable, 0 for an
+                       integer variable or a constant operand
+   P(s)   = max(3*step, 1e-5*(|s| + W)) for a float result s, 0 for an integer result (an integer variable takes
+                       ceil / floor of a float bound: views.rs try_set_min/max, VarI x ValF arms)
+A solution is a store on which the LAST run of every propagator changed nothing (search/mod.rs:693-729: a propagator
+is rescheduled whenever a variable it watches changes, itself included).  From the case analysis above, a call
+s.try_set_min(v) that neither fails nor changes s implies  v <= s.max + ptol <= s + w(s) + P(s),  and a call
+s.try_set_max(v) implies  v >= s.min - ptol = s - P(s).  Every arithmetic propagator begins with
+   s.try_set_min(LOW) ; s.try_set_max(HIGH)
+where LOW / HIGH are the f64 lower / upper end of f over the operand BOXES (each operand ranges over [x, x + w(x)]);
+f(x) itself lies between the exact LOW and HIGH, and HIGH - LOW <= spread_f := sup |f(x') - f(x)| over the box.  Hence
+        -(spread_f + P(s))  <=  f(x) - s  <=  spread_f' + w(s) + P(s)
+and the judge uses   tol_f = spread_f + w(s) + P(s) + 2^-40*(|s| + sum |operands|)   (the last term: f64 rounding), with
+   add, sub, sum (props/add.rs:35-37, sum.rs:20-31; sub = add over the view y*(-1)):   spread = sum_i w(x_i)
+   mul  (props/mul.rs:23-42, corner products):            spread = w(x)*(|y| + w(y)) + w(y)*|x|
+   div  (props/div.rs:22-74, corner quotients, nothing is enforced when the divisor interval touches
+         [-2.2e-16, 2.2e-16]; the row is judged only if |y| > 2*W):   spread = (w(x) + |x/y|*w(y)) / (|y| - w(y))
+   abs  (props/abs.rs:27-79):                             spread = w(x)
+   min, max (props/min.rs:33-58, max.rs):                 spread = max_i w(x_i)
+   element (props/element.rs:217-262): the index is an integer in 0..n-1 (exact) and the intervals of array[index] and of
+         the result intersect (tested without tolerance at :236), so  |array[index] - result| <= max(w(a), w(r))  (+ the
+         2^-40 relative slack); no P term.
+Results whose operands are all integers (and are integer variables themselves) have every term 0: judged exactly
+(m.div always creates a float result: api/arithmetic.rs:104-146).
+A NON-LINEAR fluent constraint  e1 rel e2  (runtime_api/mod.rs:1036-1150) is lowered to one hidden auxiliary variable per
+inner node (bounds by interval arithmetic, expr_bounds) tied by the same Add / Mul / Div propagators, constants become
+single-valued variables, and the two roots are compared by LessThanOrEquals / Eq ... .  The hidden values are not
+reported, so the judge propagates an error bound bottom-up:  err(leaf) = 0,
+   err(a+b) = (err a + err b + spread + w + P(|t|+..))  etc. with |operand| replaced by |t_operand| + err(operand),
+t = the exact value of the sub-expression at the reported point, and accepts the comparison when
+   t1 - t2  rel  0   within   err(e1) + err(e2) + sum over float roots (5*step + 1e-5*(|t| + err))   (the comparison's own
+tolerance, as for linear rows).  A division whose divisor may be within 2*W of zero is not judged."""
 import math, random, struct
 from fractions import Fraction
 
@@ -114,6 +151,7 @@ class Case:
             elif t[0] == "I": self.decls.append(("I", Fraction(int(t[1])), Fraction(int(t[2]))))
             elif t[0] == "B": self.decls.append(("I", Fraction(0), Fraction(1)))
         self.rows, self.entry, self.flags, self.timeout = [], ["solve"], set(), 3000
+        self.derived = set()                 # indexes of result handles (arith posts): no declared bounds of their own
         for p in parts[2:]:
             t = p.split()
             if not t: continue
@@ -122,8 +160,9 @@ class Case:
                 cs = [] if t[2] == "-" else [dec(c) for c in t[2].split(",")]
                 xs = [] if t[3] == "-" else [int(x[1:]) for x in t[3].split(",")]
                 co = {}
-                for c, x in zip(cs, xs): co[x] = co.get(x, Fraction(0)) + c
-                self.rows.append(Row(t[1], co, dec(t[4]), t[0], p))
+                ab = {}
+                for c, x in zip(cs, xs): co[x] = co.get(x, Fraction(0)) + c; ab[x] = ab.get(x, Fraction(0)) + abs(c)
+                self.rows.append(Row(t[1], co, dec(t[4]), t[0], p, extra={"abs": ab}))
             elif t[0] == "new":
                 import re as _re      # ExprBuilder::mul folds x*1 (integer literal 1) at build time
                 t = [t[0], _re.sub(r"mul\(1,(x\d+)\)", r"\1", _re.sub(r"mul\((x\d+),1\)", r"\1", t[1]))]
@@ -131,7 +170,9 @@ class Case:
                 a, b = _split_top(t[1][t[1].index("(") + 1:-1])
                 la, lb = _lin_expr(a), _lin_expr(b)
                 if la is None or lb is None:
-                    self.rows.append(Row(op, {}, Fraction(0), "new", p, linear=False)); continue
+                    import re as _re2
+                    co = {int(v): Fraction(1) for v in _re2.findall(r"x(\d+)", t[1])}
+                    self.rows.append(Row(op, co, Fraction(0), "new", p, linear=False, extra={"lhs": a.strip(), "rhs": b.strip()})); continue
                 co = dict(la[0])
                 for v, q in lb[0].items(): co[v] = co.get(v, Fraction(0)) - q
                 self.rows.append(Row(op, co, lb[1] - la[1], "new", p, extra={"all_int": la[2] and lb[2], "lhs": a.strip(), "rhs": b.strip()}))
@@ -150,18 +191,71 @@ class Case:
             elif t[0] == "conv":
                 self.rows.append(Row(t[1], {int(t[2][1:]): Fraction(1), int(t[3][1:]): Fraction(-1)}, Fraction(0), "conv", p, linear=False,
                                      extra={"a": int(t[2][1:]), "b": int(t[3][1:])}))
+            elif t[0] == "arith":
+                op = t[1]
+                if op in ("add", "sub", "mul", "div"): args = [self._opd(t[2]), self._opd(t[3])]
+                elif op == "abs": args = [self._opd(t[2])]
+                else: args = [("v", int(x[1:])) for x in t[2].split(",")]
+                res = len(self.decls)
+                self.decls.append(self._result_decl(op, args)); self.derived.add(res)
+                co = {a[1]: Fraction(1) for a in args if a[0] == "v"}; co[res] = Fraction(-1)
+                self.rows.append(Row("arith", co, Fraction(0), "arith", p, linear=False, extra={"op": op, "args": args, "res": res}))
+            elif t[0] in ("elem", "elemi", "elemx"):
+                ix, arr, res = int(t[1][1:]), [int(x[1:]) for x in t[2].split(",")], int(t[3][1:])
+                co = {v: Fraction(1) for v in arr}; co[ix] = Fraction(1); co[res] = Fraction(-1)
+                self.rows.append(Row("elem", co, Fraction(0), "elem", p, linear=False, extra={"ix": ix, "arr": arr, "res": res}))
             elif t[0] in ("solve", "min", "max"): self.entry = t
             elif t[0] in ("lp", "fp"): self.flags.add(t[0])
             elif t[0] == "to": self.timeout = int(t[1])
+    def _opd(self, tok):
+        if tok.startswith("f:"): return ("c", h2q(tok[2:]), True)
+        if tok.startswith("i:"): return ("c", Fraction(int(tok[2:])), False)
+        return ("v", int(tok[1:]))
+    def _box(self, a):
+        """operand -> (lo, hi, is_float) from the declared / derived bounds"""
+        if a[0] == "c": return a[1], a[1], a[2]
+        k, lo, hi = self.decls[a[1]]
+        return lo, hi, k == "F"
+    def _result_decl(self, op, args):
+        """kind and bounds Model::add/sub/mul/div/abs/min/max/sum give the result variable (api/arithmetic.rs), in exact
+        rationals (the f64 rounding of these bounds is irrelevant here: they serve as magnitudes B_j in tol(row) and for
+        the generator); the kind is int iff the code's two bound values are both Val::ValI"""
+        bx = [self._box(a) for a in args]
+        anyf = any(b[2] for b in bx)
+        if op == "add": lo, hi = bx[0][0] + bx[1][0], bx[0][1] + bx[1][1]
+        elif op == "sub": lo, hi = bx[0][0] - bx[1][1], bx[0][1] - bx[1][0]
+        elif op == "mul":
+            c = [x * y for x in bx[0][:2] for y in bx[1][:2]]; lo, hi = min(c), max(c)
+        elif op == "div":
+            c = [x / y for x in bx[0][:2] for y in bx[1][:2] if y != 0]
+            lo, hi = (min(c), max(c)) if c else (Fraction(-1000), Fraction(1000))
+            anyf = True
+        elif op == "abs":
+            l, h = bx[0][0], bx[0][1]
+            lo = l if l >= 0 else (-h if h <= 0 else Fraction(0)); hi = max(abs(l), abs(h))
+        elif op == "sum":
+            lo, hi = sum(b[0] for b in bx), sum(b[1] for b in bx)
+        else:
+            # min / max / fmin / fmax: a strict comparison keeps the FIRST of equal values, the kind of each bound is the kind
+            # of the variable that supplied it
+            pick = (lambda cur, new: new < cur) if op in ("min", "fmin") else (lambda cur, new: new > cur)
+            blo = bhi = None
+            for b in bx:
+                if blo is None or pick(blo[0], b[0]): blo = (b[0], b[2])
+                if bhi is None or pick(bhi[0], b[1]): bhi = (b[1], b[2])
+            lo, hi = blo[0], bhi[0]; anyf = blo[1] or bhi[1]
+        return ("F" if anyf else "I", lo, hi)
     def is_float(self, v): return self.decls[v][0] == "F"
     def bmag(self, v): return max(abs(self.decls[v][1]), abs(self.decls[v][2]))
     def tol(self, row):
         """the derived tolerance of the module docstring"""
         t = Fraction(0); mag = abs(row.const)
+        ab = (row.extra or {}).get("abs", {})      # a variable posted twice is quantised once per posted TERM
         for v, c in row.coeffs.items():
-            mag += abs(c) * self.bmag(v)
+            ac = ab.get(v, abs(c))
+            mag += ac * self.bmag(v)
             if self.is_float(v):
-                t += abs(c) * (K_STEP * self.step + REL * self.bmag(v))
+                t += ac * (K_STEP * self.step + REL * self.bmag(v))
         exact_ints = row.route == "ilin" or (row.route == "new" and row.extra and row.extra.get("all_int")) or (row.route == "props" and row.text.split()[1] in ("leq", "lt", "geq", "gt", "eq"))
         if t == 0 and exact_ints:
             return Fraction(0)          # integer coefficients over integer variables: exact
@@ -194,6 +288,12 @@ def row_violation(case, row, x):
         elif row.rel == "ceil": ok = (b - 1 < a + t) and (a <= b + t)
         else: ok = (b - Fraction(1, 2) <= a + t) and (a < b + Fraction(1, 2) + t)
         return None if ok else "conversion %s violated: a=%s b=%s" % (row.rel, float(a), float(b))
+    if row.route == "arith":
+        return arith_violation(case, row, x)
+    if row.route == "elem":
+        return elem_violation(case, row, x)
+    if row.route == "new" and not row.linear:
+        return nonlinear_violation(case, row, x)
     if not row.linear:
         return None
     lhs = sum((c * x[v] for v, c in row.coeffs.items()), Fraction(0))
@@ -207,6 +307,122 @@ def row_violation(case, row, x):
     else: ok = True
     if ok: return None
     return "[%s] violated: lhs-rhs = %.9g, tolerance %.3g" % (row.text, float(d), float(t))
+
+# ---- arithmetic / element / non-linear rows (tolerances: module docstring)
+def _W(case): return Fraction(3, 2) * case.step
+def _P(case, s, is_float):
+    return max(3 * case.step, REL * (abs(s) + _W(case))) if is_float else Fraction(0)
+def _spread(case, op, vals, ws):
+    """(f(vals), spread of f over the operand boxes [v, v + w]) ; None when the row is not judged (divisor near zero)"""
+    if op in ("add", "sum"): return sum(vals, Fraction(0)), sum(ws, Fraction(0))
+    if op == "sub": return vals[0] - vals[1], ws[0] + ws[1]
+    if op == "mul": return vals[0] * vals[1], ws[0] * (abs(vals[1]) + ws[1]) + ws[1] * abs(vals[0])
+    if op == "div":
+        if abs(vals[1]) <= 2 * _W(case): return None
+        q = vals[0] / vals[1]
+        return q, (ws[0] + abs(q) * ws[1]) / (abs(vals[1]) - ws[1])
+    if op == "abs": return abs(vals[0]), ws[0]
+    if op in ("min", "fmin"): return min(vals), max(ws)
+    if op in ("max", "fmax"): return max(vals), max(ws)
+    raise ValueError(op)
+def arith_tol(case, row, x):
+    """(expected value, tolerance) of one `arith` post at the reported point x, or None if not judged"""
+    W = _W(case)
+    vals, ws = [], []
+    for a in row.extra["args"]:
+        if a[0] == "c": vals.append(a[1]); ws.append(Fraction(0))
+        else: vals.append(x[a[1]]); ws.append(W if case.is_float(a[1]) else Fraction(0))
+    r = _spread(case, row.extra["op"], vals, ws)
+    if r is None: return None
+    f, spread = r
+    res = row.extra["res"]; s = x[res]; sf = case.is_float(res)
+    tol = spread + (W if sf else 0) + _P(case, s, sf)
+    if tol != 0 or row.extra["op"] == "div":
+        tol += EPS_REL * (abs(s) + sum((abs(v) for v in vals), Fraction(0)))
+    return f, tol
+def arith_violation(case, row, x):
+    r = arith_tol(case, row, x)
+    if r is None: return None
+    f, tol = r
+    s = x[row.extra["res"]]
+    if abs(s - f) <= tol: return None
+    return "[%s] violated: result x%d = %.12g, %s of the operands = %.12g, difference %.6g, tolerance %.3g" % (
+        row.text, row.extra["res"], float(s), row.extra["op"], float(f), float(s - f), float(tol))
+def elem_violation(case, row, x):
+    ix, arr, res = x[row.extra["ix"]], row.extra["arr"], row.extra["res"]
+    if ix.denominator != 1 or not (0 <= ix < len(arr)):
+        return "[%s] violated: index x%d = %s is not an integer in 0..%d" % (row.text, row.extra["ix"], ix, len(arr) - 1)
+    a = arr[int(ix)]
+    W = _W(case)
+    tol = max(W if case.is_float(a) else 0, W if case.is_float(res) else 0)
+    if tol != 0: tol += EPS_REL * (abs(x[a]) + abs(x[res]))
+    if abs(x[a] - x[res]) <= tol: return None
+    return "[%s] violated: index %d selects x%d = %.12g, result x%d = %.12g, tolerance %.3g" % (row.text, int(ix), a, float(x[a]), res, float(x[res]), float(tol))
+
+def _expr_eval(case, s, x):
+    """sub-expression -> (t, err, is_float, is_leaf): exact value at x, bound on |hidden auxiliary value - t|, kind of the
+    auxiliary variable (expr_bounds: Int iff both sides Int; a division is always Float... of two Int sides it is Int:
+    runtime_api/mod.rs:970-986, judged like a float one); None = not judged"""
+    s = s.strip()
+    if s.startswith("x") and s[1:].isdigit():
+        v = int(s[1:]); return x[v], Fraction(0), case.is_float(v), True
+    if s.startswith("f:"): return h2q(s[2:]), Fraction(0), True, True
+    try: return Fraction(int(s)), Fraction(0), False, True
+    except ValueError: pass
+    op = s[:s.index("(")]
+    a, b = _split_top(s[s.index("(") + 1:-1])
+    ra, rb = _expr_eval(case, a, x), _expr_eval(case, b, x)
+    if ra is None or rb is None: return None
+    (ta, ea, fa, la), (tb, eb, fb, lb) = ra, rb
+    W = _W(case)
+    isf = fa or fb
+    # interval of an operand node: [aux, aux + w] with |aux - t| <= e  ->  magnitude |t| + e, width w
+    wa = W if fa and not (la and _plain_const(a.strip())) else Fraction(0)
+    wb = W if fb and not (lb and _plain_const(b.strip())) else Fraction(0)
+    ma, mb = abs(ta) + ea, abs(tb) + eb
+    if op in ("add", "sub"):
+        t = ta + tb if op == "add" else ta - tb
+        base = ea + eb; spread = wa + wb
+    elif op == "mul":
+        t = ta * tb
+        base = ea * abs(tb) + eb * abs(ta) + ea * eb; spread = wa * (mb + wb) + wb * ma
+    elif op == "div":
+        if abs(tb) - eb <= 2 * W: return None
+        t = ta / tb
+        lowb = abs(tb) - eb
+        base = (ea + abs(t) * eb) / lowb; spread = (wa + (ma / lowb) * wb) / (lowb - wb)
+        if not isf:
+            # Int / Int: the auxiliary variable is an integer one with bounds floor..ceil of the quotient; Div writes the f64
+            # quotient bounds through ceil / floor: the integer must lie within 1 of the quotient
+            return t, base + spread + 1, False, False
+    else:
+        return None
+    ws = W if isf else Fraction(0)
+    e0 = base + spread + ws
+    if isf:
+        # P(s) <= max(3*step, 1e-5*(|t| + e + W)) with e the total error: solve  e = e0 + 3*step + 1e-5*(|t| + e + W)
+        e = (e0 + 3 * case.step + REL * (abs(t) + W)) / (1 - REL)
+    else:
+        e = e0
+    e += EPS_REL * (abs(t) + ma + mb)
+    return t, e, isf, False
+def nonlinear_violation(case, row, x):
+    ra, rb = _expr_eval(case, row.extra["lhs"], x), _expr_eval(case, row.extra["rhs"], x)
+    if ra is None or rb is None: return None
+    (ta, ea, fa, _), (tb, eb, fb, _) = ra, rb
+    tol = ea + eb
+    for t, e, f in ((ta, ea, fa), (tb, eb, fb)):
+        if f: tol += K_STEP * case.step + REL * (abs(t) + e)
+    if tol != 0: tol += EPS_REL * (abs(ta) + abs(tb))
+    d = ta - tb
+    rel = row.rel
+    if rel in ("le", "lt"): ok = d <= tol
+    elif rel in ("ge", "gt"): ok = d >= -tol
+    elif rel == "eq": ok = abs(d) <= tol
+    elif rel == "ne": ok = (d != 0) or tol != 0
+    else: ok = True
+    if ok: return None
+    return "[%s] violated: lhs-rhs = %.9g at the reported point, tolerance %.3g" % (row.text, float(d), float(tol))
 
 def point_violations(case, vals, kinds):
     out = []
@@ -262,6 +478,9 @@ def row_class(case, r):
         c = float(r.const / r.coeffs[fl[0]]); st = float(case.step)
         if not (math.ceil(c / st) * st == c and math.floor(c / st) * st == c):
             return "eq_const_offgrid"        # Eq<VarId,Val>: the variable is quantised to the grid, the constant view accepts no tolerance
+    if r.route == "props" and r.text.split()[1] == "lt" and nv == 1 and ints and _plain_var(r.text.split()[2]) and r.text.split()[3].startswith("f:"):
+        if (r.const / r.coeffs[ints[0]]).denominator != 1:
+            return "strict_int_float_const"  # int variable < non-integer float CONSTANT: posted as x + 1 <= c, i.e. x <= floor(c) - 1; the largest value floor(c) is lost
     if r.linear and lowered_float(case, r) and r.rel == "eq" and ints and fl:
         return "floatlineq_mixed"            # FloatLinEq: float variables are quantised with tolerances, integer ones get exact ceil/floor
     return None
@@ -280,23 +499,28 @@ def fast_path_applies(case):
         return True
     return "fp" in case.flags and case.entry[0] in ("min", "max") and not any(pending(r) for r in case.rows)
 
-def fast_path_core(case):
-    """the part of the optimisation fast path that is RIGHT on the current tree (0 failures in 40k generated cases) and is
-    therefore not covered by known finding `fast_path`: the objective is a float variable, every constraint is a non-strict
-    comparison of THAT variable with a constant posted at the props level, and the bounds are jointly feasible.  (What the
-    known finding does cover: constraints on other variables, strict / equality / FloatLin* / two-variable propagators,
-    infeasible bound sets answered Ok, integer objectives of mixed models.)"""
-    obj = int(case.entry[1][1:])
-    if case.decls[obj][0] != "F" or not case.rows: return False
-    lo, hi = case.decls[obj][1], case.decls[obj][2]
-    for r in case.rows:
-        t = r.text.split()
-        if r.route != "props" or t[1] not in ("leq", "geq") or not t[2].startswith("x") or int(t[2][1:]) != obj or not t[3].startswith("f:"):
-            return False
-        c = r.const / r.coeffs[obj]
-        if t[1] == "leq": hi = min(hi, c)
-        else: lo = max(lo, c)
-    return lo <= hi
+def bounds_pinch_offgrid(case):
+    """some float variable is pinched by var-constant comparisons posted at the props level (and its declared bounds) to a
+    NON-EMPTY exact interval [L, U] that contains no point the quantised bound updates can reach: a lower constant is rounded
+    UP to the step grid, an upper constant DOWN (Context::try_set_min/max), so ceil(L/step)*step > floor(U/step)*step + step/2
+    fails the propagation although L <= U.  (Until the repair `fast path candidates are verified` such models were answered
+    by the optimisation fast path, which does no quantisation; now they reach the search like every other model.)"""
+    st = case.step
+    for v, d in enumerate(case.decls):
+        if d[0] != "F": continue
+        lo, hi = Fraction(d[1]), Fraction(d[2]); qlo, qhi = lo, hi
+        for r in case.rows:
+            t = r.text.split()
+            if r.route != "props" or len(t) != 4 or t[1] not in ("leq", "geq", "lt", "gt", "eq") or t[2] != "x%d" % v or not t[3].startswith("f:"):
+                continue
+            c = r.const / r.coeffs[v]
+            if t[1] in ("leq", "lt", "eq"):
+                hi = min(hi, c); qhi = min(qhi, math.floor(c / st) * st)
+            if t[1] in ("geq", "gt", "eq"):
+                lo = max(lo, c); qlo = max(qlo, math.ceil(c / st) * st)
+        if lo <= hi and qlo > qhi + st / 2:
+            return True
+    return False
 
 # ------------------------------------------------------------------------------------------------ generators
 NICE = [Fraction(k, 4) for k in range(-12, 13) if k != 0]
